@@ -8,7 +8,7 @@ for f in glob.glob("/tmp/confirm-*.out"):
     lines += open(f).read().splitlines()
 conf = {}
 for l in lines:
-    m = re.match(r"CONFIRM /tmp/seed-(C\d+b?)/(\d): demo_on_head=(\d+) tests_exit=(\d+) tests_passed=(\d*) demo_with_patch=(\d+)", l)
+    m = re.match(r"CONFIRM /tmp/seed-(C\d+[bc]?)/(\d): demo_on_head=(\d+) tests_exit=(\d+) tests_passed=(\d*) demo_with_patch=(\d+)", l)
     if m:
         conf[f"{m.group(1)}/{m.group(2)}"] = (l, m.group(3) == "0" and m.group(4) == "0" and m.group(6) != "0")
 n = 0
